@@ -185,6 +185,23 @@ theorem tkRun_glob (cmp : Cmp ε τ) (s₁ s₂ : TkState τ) (h : s₁.glob = s
       apply ih
       simp only [tkStep, settingsSet, h]
 
+/-- the cache is effective: the same arguments again are found, and the stored tables are handed out -/
+theorem newTokenizer_again (cmp : Cmp ε τ) (s : TkState τ) (m : MacrosArg) (p : ProdsArg) (t : τ) (hit : Bool)
+    (h : (newTokenizer cmp s m p).1 = .ok (t, hit)) :
+    (newTokenizer cmp (newTokenizer cmp s m p).2 m p).1 = .ok (t, true) := by
+  cases hc : cget s.cache (keyOf m p) with
+  | some u =>
+    simp only [newTokenizer, hc] at h ⊢
+    injection h with h; injection h with h1 _
+    simp only [hc, h1]
+  | none =>
+    cases ht : tablesOf cmp s.glob m p with
+    | error e => simp only [newTokenizer, hc, ht] at h; cases h
+    | ok u =>
+      simp only [newTokenizer, hc, ht] at h ⊢
+      injection h with h; injection h with h1 _
+      simp only [cget_cset, if_true, h1]
+
 /-- objects are only ever added -/
 theorem newTokenizer_insts (cmp : Cmp ε τ) (s : TkState τ) (m : MacrosArg) (p : ProdsArg) (t : τ) (hit : Bool)
     (h : (newTokenizer cmp s m p).1 = .ok (t, hit)) : (newTokenizer cmp s m p).2.insts = s.insts ++ [t] := by
